@@ -7,7 +7,8 @@ META = {
                   "replace_floats block) is verified from the AST for label lists of any length, with strings abstract and the tree's parent pointers an arbitrary prefix structure: "
                   "Mul/Add/Div/Sub become * + / -, every other label is lower-cased; without replace_floats every label keeps that text (numeric constants keep their values); "
                   "with replace_floats exactly the numbers whose parent operator is not pow and the labels that already look like parameters become a<k>, k counting them in order of "
-                  "position -- a number directly under pow keeps its text. The tree walk itself (sympy objects, DecoratedNode) is outside the verifier's reach and is bounded.",
+                  "position -- a number directly under pow keeps its text. generator.labels_to_shape is verified as a whole: entry p of the arity string is the class of label p among the three (pairwise disjoint) operator classes, 0 for a "
+                  "parameter-like label or a number that is no operator, and ValueError escapes only for a label that is none of these. The tree walk itself (sympy objects, DecoratedNode) is outside the verifier's reach and is bounded.",
     "text": "Bounded stand-in on the real string API (generator.string_to_node, DecoratedNode.to_list, fit_single.string_to_aifeyn and "
             "fit_single.fit_from_string with single_function replaced by a recorder, so that the relabelling / float-replacement code of both entry "
             "points runs unchanged): formulas are generated from a grammar over x, a0..a2, 1, 2, 3, 1.5, 0.25, the unary operators of the basis by "
@@ -55,6 +56,14 @@ def deductive(run):
         failed += f
         if st != "unsupported" and D.canary(run, "fitting/fit_single.py", fn, (lambda fn=fn: c_fit_single.relabel_contract(fn))) is False:
             raise RuntimeError("canary verified: engine vacuous on %s" % fn)
+    # labels_to_shape: the arity string that check_tree / node_to_string receive is the arity class of every label (the link between the relabelled list and the tree)
+    from contracts import c_generator
+    st, f, _e = D.verify_function(run, "generation/generator.py", "labels_to_shape", c_generator.labels_to_shape_contract, timeout_ms=8000,
+                                  note="whole function: the dictionary built from the three operator classes (ghost witness: the position at which a key was stored), the loop over the labels "
+                                       "with the KeyError path of the lookup, ValueError only for a label that is no operator, not parameter-like and no number; classes pairwise disjoint (requires)")
+    failed += f
+    if st == "proved" and D.canary(run, "generation/generator.py", "labels_to_shape", c_generator.labels_to_shape_contract) is False:
+        raise RuntimeError("canary verified: engine vacuous on labels_to_shape")
     run.assume("A-str: strings are abstract; lower(), startswith('a'), s[1:], generator.is_float are uninterpreted functions/predicates of the string (lower idempotent, literals evaluated)",
                "the label list handed to the post-processing is a well-formed prefix expression (check_tree succeeds and gives every non-root node an earlier parent): bounded part",
                "lemma library: counting facts and extensionality of the filter primitives (CNT/IDX/RNK)")
